@@ -8,9 +8,10 @@ import sys
 import time
 
 VERIF = os.path.dirname(os.path.dirname(os.path.abspath(__file__)))  # /verif, or a snapshot of it (vp run)
-REPO = "/repo"
+REPO = os.environ.get("VERIF_REPO", "/repo")   # the registered commands never set VERIF_REPO / VERIF_HARNESS_DIR: they judge /repo itself;
+# bin/try_seeded.sh sets both to scratch copies so that seeded changes can be tried while /repo stays untouched
 SPEC = os.path.join(VERIF, "spec")
-HARNESS = os.path.join(VERIF, "harness")
+HARNESS = os.environ.get("VERIF_HARNESS_DIR", os.path.join(VERIF, "harness"))
 JAR = "/opt/veriftools/tla/tla2tools.jar:/opt/veriftools/tla/CommunityModules-deps.jar"
 
 
@@ -47,6 +48,9 @@ class Work:
 
 def build_harness(features=None):
     """Incremental cargo build of the harness against /repo's current working tree (hooks enabled)."""
+    if os.environ.get("VERIF_HARNESS_BIN") and not features:
+        # measurement runs only (coverage-instrumented build made by bin/coverage.sh); never set by the registered commands
+        return os.environ["VERIF_HARNESS_BIN"], 0.0
     cmd = ["cargo", "build", "--offline", "--quiet"]
     tdir = "target"
     if features:
@@ -298,16 +302,17 @@ class Verdict:
 
 
 def write_evidence(prop, tier, level, coverage, assumptions, wall_s, violations):
-    os.makedirs(os.path.join(VERIF, "evidence"), exist_ok=True)
+    edir = os.environ.get("VERIF_EVIDENCE_DIR", os.path.join(VERIF, "evidence"))   # (scratch dir when a seeded change is tried, see REPO above)
+    os.makedirs(edir, exist_ok=True)
     ev = {"property_id": prop, "tier": tier, "seed": seed(), "level": level, "coverage": coverage,
           "assumptions": assumptions, "wall_s": round(wall_s, 1), "violations": violations}
-    tmp = os.path.join(VERIF, "evidence", f".{prop}.json.tmp")
+    tmp = os.path.join(edir, f".{prop}.json.tmp")
     with open(tmp, "w") as f:
         json.dump(ev, f, indent=1)
-    os.replace(tmp, os.path.join(VERIF, "evidence", f"{prop}.json"))
+    os.replace(tmp, os.path.join(edir, f"{prop}.json"))
 
 
 def replay_dir():
-    d = os.path.join(VERIF, "replays")
+    d = os.environ.get("VERIF_REPLAY_DIR", os.path.join(VERIF, "replays"))
     os.makedirs(d, exist_ok=True)
     return d
